@@ -257,6 +257,25 @@ def check_flips(p, route, initial, seq):
     case = {'mode': 'flips', 'route': route, 'initial': initial, 'sequence': list(seq)}
     if route == 'api':
         db = builder.build(m, allow_properties=initial)
+    elif route in ('api-late', 'parsed-late'):
+        # objects created without any property get theirs afterwards, by item assignment on the dict they hold
+        if route == 'api-late':
+            db = builder.build(emptied(m), allow_properties=initial)
+        else:
+            db = parse(writer.write(emptied(m)), True)
+            db.allow_properties = initial
+        try:
+            for t in m['tables']:
+                tab = db[f"{t['schema']}.{t['name']}"]
+                for k, v in t['properties']:
+                    tab.properties[k] = v
+                for c in t['columns']:
+                    for k, v in c['properties']:
+                        tab[c['name']].properties[k] = v
+        except Exception as e:
+            p['violations'].append(violation(PID, 'properties-cannot-be-added', case, observed=exc_info(e),
+                                             detail=f'{route}: assigning a property on an object created without any raised {type(e).__name__}: {e}'))
+            return
     else:
         db = parse(writer.write(m), True)
         db.allow_properties = initial
@@ -468,7 +487,7 @@ def work(unit):
             p['states'] += 1
         p['samples'].append({'mode': 'store', 'table_case': tc[0]})
     else:
-        for route in ('api', 'parsed'):
+        for route in ('api', 'parsed', 'api-late', 'parsed-late'):
             for initial in (False, True):
                 for d in range(0, 4):
                     for seq in itertools.product((False, True), repeat=d):
